@@ -1,10 +1,13 @@
 //! Counting global allocator.
 //!
 //! * `LIVE_BYTES` / `LIVE_BLOCKS`: everything currently allocated by the process.
-//! * Blocks with alignment 64 and size `RCBOX_SIZE` are `RcBox<Node>` allocations (the payload
-//!   type is `#[repr(align(64))]`, nothing else in the process allocates such a block): they are
-//!   tracked in a fixed open-addressing table so that a double free is detected *before* it
-//!   reaches the system allocator, and every release is queued for the harness.
+//! * Blocks with alignment 64 and size `RCBOX_SIZE` are candidates for `RcBox<Node>` allocations
+//!   (the payload type is `#[repr(align(64))]`): they are tracked in a fixed open-addressing table
+//!   so that a double free is detected *before* it reaches the system allocator, and every release
+//!   is queued for the harness.  The harness decides which candidates are objects (it registers
+//!   the block of every `Rc` it gets back from the library); a candidate it never registered —
+//!   e.g. a `Vec<(Node, Links)>` buffer inside the library that happens to have the same layout —
+//!   is not an object and its release is not part of the observation.
 //! The allocator never allocates itself.
 
 use std::alloc::{GlobalAlloc, Layout, System};
@@ -132,7 +135,22 @@ unsafe impl GlobalAlloc for Tracking {
     }
 
     unsafe fn realloc(&self, p: *mut u8, layout: Layout, new_size: usize) -> *mut u8 {
+        // a growing/shrinking buffer that passes through the `RcBox<Node>` layout: keep the live set
+        // consistent (treated as release of the old block and allocation of the new one)
+        let tracked = layout.align() == 64 && TRACK.load(Relaxed);
+        if tracked && layout.size() == RCBOX_SIZE.load(Relaxed) && live_remove(p as usize) {
+            LIVE_RCBOX.fetch_sub(1, Relaxed);
+        }
         let q = System.realloc(p, layout, new_size);
+        if q.is_null() {
+            if tracked && layout.size() == RCBOX_SIZE.load(Relaxed) {
+                live_insert(p as usize);
+                LIVE_RCBOX.fetch_add(1, Relaxed);
+            }
+        } else if tracked && new_size == RCBOX_SIZE.load(Relaxed) {
+            live_insert(q as usize);
+            LIVE_RCBOX.fetch_add(1, Relaxed);
+        }
         if !q.is_null() {
             LIVE_BYTES.fetch_add(new_size as isize - layout.size() as isize, Relaxed);
             ALLOC_CALLS.fetch_add(1, Relaxed);
